@@ -250,6 +250,7 @@ class World:
     def __init__(self, tape, fault_plan=None, max_steps=20000):
         self.tape = tape
         self.files = {}             # abs path -> bytes
+        self.modes = {}             # abs path -> permission bits set by chmod (default 0644 / 0755)
         self.dirs = {SIMROOT}
         self.log = []               # (step, task, inc, op, path, result, n)
         self.step = 0
@@ -554,10 +555,10 @@ class World:
         self.gate(inc, "stat", path)
         if path in self.dirs:
             self.log_event(inc, "stat", path, "dir")
-            return os.stat_result((statmod.S_IFDIR | 0o755, 0, 0, 2, 0, 0, 4096, 0, 0, 0))
+            return os.stat_result((statmod.S_IFDIR | self.modes.get(path, 0o755), 0, 0, 2, 0, 0, 4096, 0, 0, 0))
         if path in self.files:
             self.log_event(inc, "stat", path, "file")
-            return os.stat_result((statmod.S_IFREG | 0o644, 0, 0, 1, 0, 0,
+            return os.stat_result((statmod.S_IFREG | self.modes.get(path, 0o644), 0, 0, 1, 0, 0,
                                    len(self.files[path]), 0, 0, 0))
         self.log_event(inc, "stat", path, "ENOENT")
         raise self._enoent(path)
@@ -585,8 +586,46 @@ class World:
             self.log_event(inc, "unlink", path, "ENOENT")
             raise self._enoent(path)
         del self.files[path]
+        self.modes.pop(path, None)
         self.log_event(inc, "unlink", path, "ok")
         self.note_mutation(inc, path)
+
+    def sim_chmod(self, path, mode):
+        inc = self.current
+        self.gate(inc, "chmod", path)
+        if path not in self.files and path not in self.dirs:
+            self.log_event(inc, "chmod", path, "ENOENT")
+            raise self._enoent(path)
+        self.modes[path] = mode & 0o7777
+        self.log_event(inc, "chmod", path, "ok")
+
+    def sim_touch_meta(self, path, what):
+        """utime / chown: metadata the simulated file system does not keep"""
+        inc = self.current
+        self.gate(inc, what, path)
+        if path not in self.files and path not in self.dirs:
+            self.log_event(inc, what, path, "ENOENT")
+            raise self._enoent(path)
+        self.log_event(inc, what, path, "ok")
+
+    def sim_truncate_path(self, path, length):
+        inc = self.current
+        self.gate(inc, "truncate", path)
+        if path in self.dirs:
+            self.log_event(inc, "truncate", path, "EISDIR")
+            raise IsADirectoryError(errno.EISDIR, os.strerror(errno.EISDIR), path)
+        if path not in self.files:
+            self.log_event(inc, "truncate", path, "ENOENT")
+            raise self._enoent(path)
+        d = self.files[path]
+        self.files[path] = d[:length] + b"\0" * max(0, length - len(d))
+        self.log_event(inc, "truncate", path, "ok", length)
+        self.note_mutation(inc, path)
+
+    def sim_scandir(self, path):
+        names = self.sim_listdir(path)
+        pre = path.rstrip("/") + "/"
+        return _SimScandir([_SimDirEntry(self, n, pre + n) for n in names])
 
     def sim_rmdir(self, path):
         inc = self.current
@@ -613,6 +652,10 @@ class World:
                 self.log_event(inc, "rename", src, "ENOENT")
                 raise self._enoent(dst)
             self.files[dst] = self.files.pop(src)
+            if src in self.modes:
+                self.modes[dst] = self.modes.pop(src)
+            else:
+                self.modes.pop(dst, None)
             self.log_event(inc, "rename", src, "ok:" + dst)
             self.note_mutation(inc, src)
             self.note_mutation(inc, dst)
@@ -973,6 +1016,16 @@ def _patched_time_ns():
     return _real["time_ns"]()
 
 
+def _sim_clock(name, scale):
+    def clock():
+        w = WORLD
+        if w is not None and w.current is not None:
+            v = 5000.0 + w.step * 0.001
+            return int(v * 1e9) if scale == "ns" else v
+        return _real[name]()
+    return clock
+
+
 class _SimTempNames:
     """replacement for tempfile._RandomNameSequence: names are a function of (task, incarnation, counter)"""
 
@@ -1001,13 +1054,87 @@ def _patched_access(path, mode, *a, **k):
     return _real["access"](path, mode, *a, **k)
 
 
+class _SimDirEntry:
+    def __init__(self, w, name, path):
+        self._w, self.name, self.path = w, name, path
+
+    def is_dir(self, follow_symlinks=True):
+        return self.path in self._w.dirs
+
+    def is_file(self, follow_symlinks=True):
+        return self.path in self._w.files
+
+    def is_symlink(self):
+        return False
+
+    def is_junction(self):
+        return False
+
+    def stat(self, follow_symlinks=True):
+        return self._w.sim_stat(self.path)
+
+    def inode(self):
+        return 0
+
+    def __fspath__(self):
+        return self.path
+
+    def __repr__(self):
+        return "<SimDirEntry %r>" % self.name
+
+
+class _SimScandir:
+    def __init__(self, entries):
+        self._it = iter(entries)
+
+    def __iter__(self):
+        return self
+
+    def __next__(self):
+        return next(self._it)
+
+    def __enter__(self):
+        return self
+
+    def __exit__(self, *a):
+        return False
+
+    def close(self):
+        pass
+
+
 def _patched_scandir(path=".", *a, **k):
     w = WORLD
-    if w is not None:
+    if w is not None and not isinstance(path, int):
         is_sim, p = w.route(path)
         if is_sim:
-            raise Unsupported("os.scandir on simulated path %s" % p)
+            return w.sim_scandir(p)
     return _real["scandir"](path, *a, **k)
+
+
+def _mk_meta(name, handler):
+    """os functions on a path that the simulated file system answers itself (or refuses loudly): nothing that
+    names a simulated path may fall through to the real file system"""
+    def f(path, *a, **k):
+        w = WORLD
+        if w is not None and k.get("dir_fd") is None and not isinstance(path, int):
+            is_sim, p = w.route(path)
+            if is_sim:
+                return handler(w, p, *a, **k)
+        return _real[name](path, *a, **k)
+    f.__name__ = name
+    return f
+
+
+def _refuse(name):
+    def h(w, p, *a, **k):
+        raise Unsupported("os.%s on simulated path %s" % (name, p))
+    return h
+
+
+def _sim_readlink(w, p, *a, **k):
+    w.sim_stat(p)
+    raise OSError(errno.EINVAL, os.strerror(errno.EINVAL), p)
 
 
 def install_seams():
@@ -1055,6 +1182,20 @@ def install_seams():
     os.open = _patched_os_open
     os.access = _patched_access
     os.scandir = _patched_scandir
+    metas = {"chmod": lambda w, p, mode, *a, **k: w.sim_chmod(p, mode),
+             "lchmod": lambda w, p, mode, *a, **k: w.sim_chmod(p, mode),
+             "utime": lambda w, p, *a, **k: w.sim_touch_meta(p, "utime"),
+             "chown": lambda w, p, *a, **k: w.sim_touch_meta(p, "chown"),
+             "lchown": lambda w, p, *a, **k: w.sim_touch_meta(p, "chown"),
+             "truncate": lambda w, p, length, *a, **k: w.sim_truncate_path(p, length),
+             "readlink": _sim_readlink,
+             "listxattr": lambda w, p=None, *a, **k: (w.sim_stat(p), [])[1],
+             "symlink": _refuse("symlink"), "link": _refuse("link"), "mkfifo": _refuse("mkfifo"),
+             "statvfs": _refuse("statvfs"), "chflags": _refuse("chflags")}
+    for name, handler in metas.items():
+        if hasattr(os, name):
+            _real[name] = getattr(os, name)
+            setattr(os, name, _mk_meta(name, handler))
     os.close = _patched_os_close
     os.write = _patched_os_write
     os.read = _patched_os_read
@@ -1062,14 +1203,30 @@ def install_seams():
     os.fstat = _patched_os_fstat
     os.getpid = _patched_getpid
     os.urandom = _patched_urandom
+    # random.SystemRandom / secrets read the kernel through a name bound at import time
+    random._urandom = _patched_urandom
     time.time = _patched_time
     time.time_ns = _patched_time_ns
+    for name in ("monotonic", "perf_counter", "process_time"):
+        for suffix, scale in (("", "s"), ("_ns", "ns")):
+            _real[name + suffix] = getattr(time, name + suffix)
+            setattr(time, name + suffix, _sim_clock(name + suffix, scale))
     tempfile._name_sequence = _SimTempNames()
+    try:
+        import uuid
+        uuid._generate_time_safe = None       # uuid1(): the Python path (simulated clock), not libuuid
+        uuid._UuidCreate = None
+    except Exception:
+        pass
 
 
 def set_world(w):
     global WORLD
     WORLD = w
+    if w is not None:
+        # the process-wide generator behind random.random()/choice()/... : what a task draws from it is
+        # then a function of the tape (which decides the interleaving), like everything else
+        random.seed(0x5EED)
 
 
 # ---------------------------------------------------------------------------
